@@ -130,7 +130,7 @@ func (env *envCommand) renderValue(
 		}
 		return nil
 	case "shell":
-		_, environ, _, err := env.prepareEnvironment(e, PrepareOptions{Pretend: pretend, Quote: true, Redact: !showSecrets})
+		_, environ, _, err := env.prepareEnvironment(e, PrepareOptions{Pretend: pretend, Quote: true, Shell: true, Redact: !showSecrets})
 		if err != nil {
 			return err
 		}
